@@ -411,6 +411,91 @@ class Gen:
                              dict(api='att', d='get', fmt=fmt, xi=xi, ii=ii, fill=None, codes=l, kind='text'))
                     self.dist['echar_calls'] += 6
 
+    # ---- request level: nonblocking batches, blocking varn / mput
+    NB_GET = [(4, 2), (7, 1), (5, 4), (4, 3), (7, 4), (6, 0), (8, 4), (9, 9), (2, 0), (7, 7), (4, 7), (3, 2)]
+    NB_PUT = [(2, 4), (1, 8), (4, 9), (5, 4), (6, 8), (3, 2), (8, 10)]
+
+    def plain_values(self, d, xi, ii):
+        """in-range and out-of-range source values of a pair, without the classes that have findings of their own"""
+        S = IC[ii] if d == 'put' else XC[xi]
+        IN, OUT = self.classify(d, xi, ii, self.dictionary(d, xi, ii))
+        ok = lambda c: value_class(S, c) in ('int', 'finite') or (value_class(S, c) == 'Inf' and not isflt(XC[xi] if d == 'put' else IC[ii]))
+        return [c for c in IN if ok(c)], [c for c in OUT if ok(c)]
+
+    def make_req(self, r, kind, xi, ii, bad, n=None):
+        """one request: kind 0 iget 1 iput 2 bput; bad = set of element positions that are out of range"""
+        d = 'get' if kind == 0 else 'put'
+        IN, OUT = self.plain_values(d, xi, ii)
+        n = n or r.range(2, 5)
+        codes = []
+        for j in range(n):
+            codes.append(r.choice(OUT) if (j in bad and OUT) else r.choice(IN))
+        return dict(kind=kind, xi=xi, ii=ii, codes=codes)
+
+    def add_batch(self, r, fmt, wmode, reqs, label):
+        k = len(reqs)
+        vs = list(range(k))
+        if r.chance(1, 2): r.shuffle(vs)
+        elif r.chance(1, 2): vs.reverse()
+        perm = list(range(k))
+        if r.chance(1, 2): r.shuffle(perm)
+        elif r.chance(1, 2): perm.reverse()
+        body = ' '.join('%d %d %d %d %d %s' % (q['kind'], vs[i], q['xi'], q['ii'], len(q['codes']), ' '.join(str(c) for c in q['codes']))
+                        for i, q in enumerate(reqs))
+        self.add('N %%s %d %d %d %s %s' % (fmt, wmode, k, ' '.join(str(x) for x in perm), body),
+                 dict(api='nb', d='nb', fmt=fmt, wmode=wmode, reqs=reqs, perm=perm, vslot=vs, kind=label, xi=reqs[0]['xi'], ii=reqs[0]['ii'], codes=[]))
+        self.dist['nb_batches'] = self.dist.get('nb_batches', 0) + 1
+        self.dist['nb_requests'] = self.dist.get('nb_requests', 0) + k
+
+    def gen_req_level(self):
+        r = self.rng.fork('nb')
+        rounds = 1 if self.tier == 'quick' else 6
+        for _ in range(rounds):
+            for k in range(2, 7):
+                pats = [('none', set()), ('first', {0}), ('middle', {k // 2}), ('last', {k - 1}),
+                        ('first+last', {0, k - 1}), ('all', set(range(k))), ('all-but-first', set(range(1, k)))]
+                for name, badreqs in pats:
+                    for wmode in (0, 1):
+                        # pure iget batch
+                        reqs = []
+                        for i in range(k):
+                            xi, ii = r.choice(self.NB_GET)
+                            n = r.range(2, 5)
+                            bad = {r.below(n)} | ({r.below(n)} if r.chance(1, 3) else set()) if i in badreqs else set()
+                            reqs.append(self.make_req(r, 0, xi, ii, bad, n))
+                        self.add_batch(r, 5, wmode, reqs, 'iget-%s' % name)
+                        # mixed iget / iput / bput
+                        reqs = []
+                        for i in range(k):
+                            kind = r.choice([0, 0, 1, 2])
+                            xi, ii = r.choice(self.NB_GET if kind == 0 else self.NB_PUT)
+                            n = r.range(2, 5)
+                            bad = {r.below(n)} if i in badreqs else set()
+                            reqs.append(self.make_req(r, kind, xi, ii, bad, n))
+                        self.add_batch(r, 5, wmode, reqs, 'mixed-%s' % name)
+            # classic format, puts only / gets only
+            for wmode in (0, 1):
+                cl_get = [(4, 2), (7, 1), (7, 4), (6, 0), (2, 0)]
+                cl_put = [(2, 4), (4, 9), (6, 8)]
+                self.add_batch(r, 2, wmode, [self.make_req(r, 0, *r.choice(cl_get), bad=({0} if i != 1 else set())) for i in range(4)], 'iget-cdf2')
+                self.add_batch(r, 2, wmode, [self.make_req(r, r.choice([1, 2]), *r.choice(cl_put), bad=({1} if i % 2 == 0 else set())) for i in range(4)], 'iput-cdf2')
+            # blocking put_varn and mput: all in range, one offender first / middle / last
+            for (xi, ii) in self.NB_PUT:
+                IN, OUT = self.plain_values('put', xi, ii)
+                for coll in (0, 1):
+                    for pos in (None, 0, 2, 4):
+                        codes = [r.choice(IN) for _ in range(5)]
+                        if pos is not None and OUT: codes[pos] = r.choice(OUT)
+                        self.add('W %%s 5 %d %d %d 5 %s' % (coll, xi, ii, ' '.join(str(c) for c in codes)),
+                                 dict(api='varn', d='put', fmt=5, coll=coll, xi=xi, ii=ii, codes=codes, kind='varn-%s' % ('in-range' if pos is None else 'offender@%d' % pos)))
+                        self.dist['varn_calls'] = self.dist.get('varn_calls', 0) + 1
+                    for badvar in (None, 0, 1, 2):
+                        codes = [r.choice(IN) for _ in range(9)]
+                        if badvar is not None and OUT: codes[badvar * 3 + r.below(3)] = r.choice(OUT)
+                        self.add('M %%s 5 %d %d %d 3 3 %s' % (coll, xi, ii, ' '.join(str(c) for c in codes)),
+                                 dict(api='mput', d='put', fmt=5, coll=coll, xi=xi, ii=ii, codes=codes, kind='mput-%s' % ('in-range' if badvar is None else 'offender-var%d' % badvar)))
+                        self.dist['mput_calls'] = self.dist.get('mput_calls', 0) + 1
+
     def gen_leaf(self):
         """direct calls of the element-wise functions: whole dictionary + random volume, NULL and non-NULL fillp,
         padding variants; sweeps of the 8-bit (quick) and 16-bit (thorough) source types"""
@@ -499,6 +584,132 @@ def expected(m):
     return st, out, codes
 
 
+def parse_nb(tok, with_kinds):
+    """tokens after the id of an N line -> (wait rc, [(post, status, kinds, codes)], close rc)"""
+    rc = int(tok[0]); k = int(tok[1]); i = 2; out = []
+    for _ in range(k):
+        assert tok[i] == 'R'
+        post, st, n = int(tok[i + 1]), int(tok[i + 2]), int(tok[i + 3]); i += 4
+        kinds = None
+        if with_kinds:
+            kinds = tok[i]; i += 1
+        out.append((post, st, kinds, [int(x) for x in tok[i:i + n]])); i += n
+    close = int(tok[i + 1]) if i < len(tok) and tok[i] == 'C' else 0
+    return rc, out, close
+
+
+def codes_equal(D, a, b):
+    return a == b or (is_nan_code(D, a) and is_nan_code(D, b))
+
+
+def sentinel_signed(D):
+    v = sentinel(D)
+    if not isflt(D):
+        b, sg = BITS[D]
+        if sg and v >= 1 << (b - 1): v -= 1 << b
+    return v
+
+
+def model_elems_match(D, kinds, codes_m, codes_i):
+    for j, k in enumerate(kinds):
+        if k == '3': continue
+        if k == '4': return 'model has no semantics'
+        want = sentinel_signed(D) if k == '2' else codes_m[j]
+        if not codes_equal(D, want, codes_i[j]):
+            return 'element %d: model %s:%d implementation %d' % (j, k, want, codes_i[j])
+    return None
+
+
+def judge_req_level(ctx, m, impl, mod, spc, fail_oracle, fail_corr, fail_internal):
+    """N / W / M commands: python oracle on the implementation, extracted spec vs oracle, model vs implementation"""
+    if m['api'] == 'nb':
+        rc_i, rq_i, close_i = parse_nb(impl, False)
+        rc_m, rq_m, _ = parse_nb(mod, True)
+        rc_s, rq_s, _ = parse_nb(spc, True)
+        wname = 'wait' if m['wmode'] else 'wait_all'
+        ctx.count('nonblocking %s k=%d %s post-order(var slots)=%s wait-order=%s %s' % (
+            wname, len(m['reqs']), m['kind'], m['vslot'], m['perm'],
+            ' | '.join('%s NC_%s %s %s' % (('iget', 'iput', 'bput')[q['kind']], XT[q['xi']], IT[q['ii']], q['codes']) for q in m['reqs'])), nontrivial=True)
+        any_get_err = False
+        for i, q in enumerate(m['reqs']):
+            d = 'get' if q['kind'] == 0 else 'put'
+            S = IC[q['ii']] if d == 'put' else XC[q['xi']]
+            D = XC[q['xi']] if d == 'put' else IC[q['ii']]
+            exp = [spec_elem(d, S, D, None, c) for c in q['codes']]
+            er = NC_ERANGE if any(k == 'range' for k, _ in exp) else 0
+            exp_post, exp_st = (er, 0) if d == 'put' else (0, er)
+            if d == 'get' and er: any_get_err = True
+            post_i, st_i, _, codes_i = rq_i[i]
+            kn = ('iget', 'iput', 'bput')[q['kind']]
+            where = 'request %d of %d (%s NC_%s as %s, values %s)' % (i, len(m['reqs']), kn, XT[q['xi']], IT[q['ii']], q['codes'])
+            if st_i != exp_st:
+                fail_oracle.setdefault('nb:%s:%s:request-status' % (wname, kn), []).append(
+                    (m, '%s: statuses[] entry %d, expected %d (a request is judged on its own data)' % (where, st_i, exp_st)))
+            if post_i != exp_post:
+                fail_oracle.setdefault('nb:%s:post-status' % kn, []).append((m, '%s: posting call returned %d, expected %d' % (where, post_i, exp_post)))
+            if any(not codes_equal(D, c, codes_i[j]) for j, (_, c) in enumerate(exp)):
+                fail_oracle.setdefault('nb:%s:%s:data' % (wname, kn), []).append(
+                    (m, '%s: stored %s expected %s' % (where, codes_i, [c for _, c in exp])))
+            # extracted spec vs oracle
+            ps, ss, ks, cs = rq_s[i]
+            if (ps, ss) != (exp_post, exp_st) or any(not codes_equal(D, c, cs[j]) for j, (_, c) in enumerate(exp)):
+                fail_internal.append('python oracle and extracted Coq spec disagree (request level): ' + m['cmd'][:160])
+            # model vs implementation
+            pm, sm, km, cm = rq_m[i]
+            mm = None
+            if (pm, sm) != (post_i, st_i): mm = '%s: model post/status %d/%d implementation %d/%d' % (where, pm, sm, post_i, st_i)
+            else:
+                e = model_elems_match(D, km, cm, codes_i)
+                if e: mm = where + ': ' + e
+            if mm: fail_corr.append((m, mm))
+        exp_rc = NC_ERANGE if any_get_err else 0
+        if rc_i != exp_rc:
+            fail_oracle.setdefault('nb:%s:return-value' % wname, []).append((m, '%s returned %d, expected %d' % (wname, rc_i, exp_rc)))
+        if rc_s != exp_rc:
+            fail_internal.append('oracle/spec disagree on the wait return value: ' + m['cmd'][:120])
+        if rc_m != rc_i:
+            fail_corr.append((m, '%s return value: model %d implementation %d' % (wname, rc_m, rc_i)))
+        if close_i != 0:
+            fail_oracle.setdefault('nb:close', []).append((m, 'ncmpi_close returned %d after the batch' % close_i))
+        return
+    # blocking put_varn / mput:  rc pending close n codes
+    xi, ii = m['xi'], m['ii']
+    S, D = IC[ii], XC[xi]
+    rc_i, pend_i, close_i, n_i = int(impl[0]), int(impl[1]), int(impl[2]), int(impl[3])
+    codes_i = [int(x) for x in impl[4:4 + n_i]]
+    rc_m, pend_m, close_m, n_m = int(mod[0]), int(mod[1]), int(mod[2]), int(mod[3])
+    kinds_m = mod[4] if n_m else ''; codes_m = [int(x) for x in mod[5:5 + n_m]]
+    rc_s, pend_s, close_s, n_s = int(spc[0]), int(spc[1]), int(spc[2]), int(spc[3])
+    codes_s = [int(x) for x in spc[5:5 + n_s]]
+    exp = [spec_elem('put', S, D, None, c) for c in m['codes']]
+    exp_rc = NC_ERANGE if any(k == 'range' for k, _ in exp) else 0
+    mode = 'collective' if m['coll'] else 'independent'
+    call = ('ncmpi_put_varn_%s%s' if m['api'] == 'varn' else 'ncmpi_mput_var_%s%s') % (IT[ii], '_all' if m['coll'] else '')
+    ctx.count('%s NC_%s %s values %s' % (call, XT[xi], m['kind'], m['codes']), nontrivial=True)
+    if (rc_s, pend_s, close_s) != (exp_rc, 0, 0) or any(not codes_equal(D, c, codes_s[j]) for j, (_, c) in enumerate(exp)):
+        fail_internal.append('python oracle and extracted Coq spec disagree (varn/mput): ' + m['cmd'][:160])
+    bad = []
+    if rc_i != exp_rc: bad.append('returned %d, expected %d' % (rc_i, exp_rc))
+    if pend_i != 0: bad.append('%d request(s) still pending after the blocking call' % pend_i)
+    if close_i != 0: bad.append('ncmpi_close returned %d' % close_i)
+    lost = [j for j, (_, c) in enumerate(exp) if not codes_equal(D, c, codes_i[j])]
+    if lost: bad.append('elements %s not transferred as specified: file holds %s, expected %s' % (lost, codes_i, [c for _, c in exp]))
+    if bad:
+        if exp_rc == NC_ERANGE and (pend_i or lost) and rc_i == NC_ERANGE:
+            key = 'put_varn:indep:erange-drops-request' if (m['api'] == 'varn' and not m['coll']) else \
+                  ('mput:erange-drops-requests' if m['api'] == 'mput' else 'put_varn:%s:erange' % mode)
+        else:
+            key = '%s:%s:other' % (m['api'], mode)
+        fail_oracle.setdefault(key, []).append((m, '%s to NC_%s with values %s: %s' % (call, XT[xi], m['codes'], '; '.join(bad))))
+    mm = None
+    if (rc_m, pend_m, close_m) != (rc_i, pend_i, close_i):
+        mm = '%s: model status/pending/close %d/%d/%d implementation %d/%d/%d' % (call, rc_m, pend_m, close_m, rc_i, pend_i, close_i)
+    else:
+        e = model_elems_match(D, kinds_m, codes_m, codes_i)
+        if e: mm = call + ': ' + e
+    if mm: fail_corr.append((m, mm))
+
+
 def run(ctx):
     sys.path.insert(0, os.path.join(C.VERIF, 'tools'))
     import tr_ncx
@@ -524,6 +735,7 @@ def run(ctx):
         return
     g = Gen(table, ctx.rng, ctx.tier)
     g.gen_api()
+    g.gen_req_level()
     g.gen_leaf()
     work = C.scratch('c09.')
     t0 = time.time()
@@ -554,6 +766,12 @@ def run(ctx):
             continue
         if impl[0] == 'HARNESS-ERROR':
             fail_internal.append('harness error %s: %s' % (' '.join(impl[:4]), m['cmd'][:120]))
+            continue
+        if m['api'] in ('nb', 'varn', 'mput'):
+            try:
+                judge_req_level(ctx, m, impl, mod, spc, fail_oracle, fail_corr, fail_internal)
+            except (AssertionError, IndexError, ValueError) as e:
+                fail_internal.append('unparsable request-level result (%r): %s | %s' % (e, m['cmd'][:100], ' '.join(impl[:12])))
             continue
         xi, ii, d = m['xi'], m['ii'], m['d']
         st_i = int(impl[0]); n_i = int(impl[1]); codes_i = [int(x) for x in impl[2:2 + n_i]]
@@ -662,7 +880,9 @@ def run(ctx):
                        '(every bound of both types and every test constant, +-1/2, +-1, adjacent floats, 0, -0, powers of two, NaN variants, +-Inf, '
                        'denormals, FLT_MAX rounding boundary, non-representable integers) + seeded random; calls: all-in-range, one offender at '
                        'first/middle/last, mixed; variable fill value present/absent; CDF-2 and CDF-5; 2^8 (quick) / 2^16 (thorough) sweeps. '
-                       'non-trivial = a converting pair or an NC_ECHAR case')
+                       'Request level: batches of k = 2..6 iget / iput / bput requests (own variable each, posting order and wait order permuted) completed by ONE '
+                       'wait_all or ONE independent wait with statuses[], offending requests none/first/middle/last/several/all, mixed with in-range requests; '
+                       'blocking put_varn and mput_var (collective and independent) with one offender. non-trivial = a converting pair, an NC_ECHAR case or a request-level case')
 
     # ---- verdicts
     for key in sorted(fail_oracle):
@@ -704,12 +924,28 @@ def replay(ctx, d):
     cmd = d.get('cmd')
     if not cmd:
         print('replay: no command stored (%s)' % d.get('relation')); return 1
-    res, problems = run_shards(exe, drv, [cmd], work, jobs=1)
+    res, problems = run_shards(exe, drv, [cmd], work, jobs=1, one_per_process=True)
+    def strip_kinds(t, k):
+        """remove the kinds token(s) of a model/spec line so that it can be compared with the implementation line"""
+        t = list(t)
+        if k == 'N':
+            out = t[:2]; i = 2
+            while i < len(t) and t[i] == 'R':
+                n = int(t[i + 3]); out += t[i:i + 4] + t[i + 5:i + 5 + n]; i += 5 + n
+            return out
+        if k in ('W', 'M'):
+            return t[:4] + t[5:]
+        return t[:2] + t[3:]
     for cid, (a, b, c) in res.items():
-        print('implementation:', ' '.join(a or [])[:600])
-        print('model         :', ' '.join(b or [])[:600])
-        print('specification :', ' '.join(c or [])[:600])
-        if a and c and (a[0] != c[0] or a[2:] != c[3:]):
+        print('implementation:', ' '.join(a or [])[:900])
+        print('model         :', ' '.join(b or [])[:900])
+        print('specification :', ' '.join(c or [])[:900])
+        k = cmd.split()[0]
+        ai = [x for x in (a or []) if True]
+        if k == 'N' and 'C' in ai: ai = ai[:ai.index('C')]
+        cs = strip_kinds(c or [], k)
+        if k == 'N' and 'C' in cs: cs = cs[:cs.index('C')]
+        if a and c and (a[0] == 'CRASH' or ai != cs):
             print('VIOLATION property=C09 replay reproduced')
             return 1
     return 0
